@@ -33,7 +33,7 @@ def demo_on(cur):
     """The author's demo with its hard-coded worktree path redirected to ``cur``."""
     src = open(os.path.join(sd, "demo.py")).read()
     import re
-    m = re.search(r"/tmp/seed-C\d+", src)
+    m = re.search(r"/tmp/seed2?-C\d+", src)
     if m:
         src = src.replace(m.group(0), cur)
     fp = os.path.join(cur, "_demo_redirected.py")
